@@ -71,7 +71,8 @@ def run(c):
     def compare(obs, tag):
         """Evaluate model and oracle inside Coq on the observed cases; returns number of disagreements."""
         direct = [o for o in obs if o["k"] == "direct"]
-        engine = [o for o in obs if o["k"] in ("engine", "comment", "suggonly")]
+        engine = [o for o in obs if o["k"] in ("engine", "comment", "suggonly", "amp", "csugg")]
+        three = [o for o in obs if o["k"] == "three"]
         # panics are failures of the property outright
         for o in direct:
             c.count()
@@ -104,7 +105,7 @@ def run(c):
                "Definition obs_eq (a : outcome bytes) (b : bytes) : bool := match a with Ok r => bytes_eqb r b | Panic _ => false end.",
                "Definition opt_ok (a : option bytes) (b : bytes) : bool := match a with Some r => bytes_eqb r b | None => true end."]
 
-        def shard_src(dsh, esh):
+        def shard_src(dsh, esh, tsh):
             src = list(pre)
             src.append("Definition dcases : list (Z * Z * Z * bytes) := [")
             src.append(";\n".join("(%d, %d, %d, %s)" % (i, o["n"], o["L"], coq_bytes(bytes(o["res"]))) for i, o in dsh))
@@ -121,21 +122,31 @@ def run(c):
             src.append("Definition ecases : list (Z * bytes * Z * bytes * bytes * Z) := [")
             # message template is V=$x;W=$$;  -> shown(x) and shown(whole match)
             src.append(";\n".join("(%d, %s, %d, %s, %s, %s)" % (i, coq_bytes(o["text"].encode()), o["L"], coq_bytes(o["msg"].encode()),
-                                                                coq_bytes(o["sugg"].encode()), {"engine": "0", "comment": "1", "suggonly": "2"}[o["k"]]) for i, o in esh))
+                                                                coq_bytes(o["sugg"].encode()), {"engine": "0", "comment": "1", "suggonly": "2", "amp": "3", "csugg": "2"}[o["k"]]) for i, o in esh))
             src.append("].")
             src.append("Definition whole (cm : Z) (t : bytes) : bytes := if cm =? 1 then [47;47;99;49;53;58] ++ t else [112;114;111;98;101;40] ++ t ++ [41].")
             # kind 2 = rule with Suggest() only: the message is "suggestion: " ++ shown(x); the replacement is x itself
-            src.append("Definition exp_msg (cm : Z) (t : bytes) (L : Z) : option bytes := if cm =? 2 then "
+            src.append("Definition exp_msg (cm : Z) (t : bytes) (L : Z) : option bytes := if cm =? 3 then "
+                       "match shown_oracle t L with Some a => Some ([70;61] ++ a ++ [46;102;59]) | None => None end else if cm =? 2 then "
                        "match shown_oracle t L with Some a => Some ([115;117;103;103;101;115;116;105;111;110;58;32] ++ a) | None => None end else "
                        "match shown_oracle t L, shown_oracle (whole cm t) L with "
                        "Some a, Some b => Some ([86;61] ++ a ++ [59;87;61] ++ b ++ [59]) | _, _ => None end.")
             src.append("Definition bad_engine := map (fun c => fst (fst (fst (fst (fst c))))) (filter (fun c => match c with (i, t, L, m, s, cm) => "
-                       "negb (opt_ok (exp_msg cm t L) m) || negb (bytes_eqb s t) end) ecases).")
+                       "negb (opt_ok (exp_msg cm t L) m) || negb (bytes_eqb s (if cm =? 3 then [] else t)) end) ecases).")
             if gen_ok:
                 src.append("Definition eff_bad := filter (fun L => negb (gen_effective_len L =? eff_len L)) (map (fun c => snd (fst (fst (fst c)))) ecases).")
             else:
                 src.append("Definition eff_bad : list Z := [].")
-            src.append("Definition RES := Eval vm_compute in (bad_model, bad_oracle, bad_engine, eff_bad).")
+            # one message with three interpolations: each variable is shortened on its own
+            src.append("Definition tcases : list (Z * bytes * bytes * bytes * Z * bytes) := [")
+            src.append(";\n".join("(%d, %s, %s, %s, %d, %s)" % (i, coq_bytes(a.encode()), coq_bytes(b.encode()), coq_bytes(cc.encode()), o["L"],
+                                                                coq_bytes(o["msg"].encode())) for i, (o, (a, b, cc)) in tsh))
+            src.append("].")
+            src.append("Definition exp3 (a b c : bytes) (L : Z) : option bytes := match shown_oracle a L, shown_oracle b L, shown_oracle c L with "
+                       "Some x, Some y, Some z => Some ([65;61] ++ x ++ [59;66;61] ++ y ++ [59;67;61] ++ z ++ [59]) | _, _, _ => None end.")
+            src.append("Definition bad_three := map (fun c => fst (fst (fst (fst (fst c))))) (filter (fun c => match c with (i, a, b, cc, L, m) => "
+                       "negb (opt_ok (exp3 a b cc L) m) end) tcases).")
+            src.append("Definition RES := Eval vm_compute in (bad_model, bad_oracle, bad_engine, eff_bad, bad_three).")
             src.append("Print RES.")
             return "\n".join(src)
 
@@ -143,8 +154,20 @@ def run(c):
         NSH = 14
         di = list(enumerate(dcases))
         ei = list(enumerate(ecases))
-        jobs = [("Cases_%s_%d.v" % (tag, k), shard_src(di[k::NSH], ei[k::NSH])) for k in range(NSH)]
-        bm, bo, be, eb = [], [], [], []
+        tparsed = []
+        for o in three:
+            c.count()
+            if o.get("panic"):
+                continue
+            mm = re.fullmatch(r'("[^"]*"), ("[^"]*"), ("[^"]*")', o["text"])
+            if not mm:
+                c.obligation("harness-consistency:c15-three", False, "cannot split probe4 arguments: " + o["text"][:80])
+                continue
+            tparsed.append((o, mm.groups()))
+            c.nontriv(("three",) + tuple(classify(len(x), o["L"] or 60) for x in mm.groups()) + (o["L"],))
+        ti = list(enumerate(tparsed))
+        jobs = [("Cases_%s_%d.v" % (tag, k), shard_src(di[k::NSH], ei[k::NSH], ti[k::NSH])) for k in range(NSH)]
+        bm, bo, be, eb, bt = [], [], [], [], []
 
         def ints(s):
             return [int(x.replace("%Z", "").strip()) for x in s.split(";") if x.strip()]
@@ -154,11 +177,11 @@ def run(c):
                 return
             m = re.search(r"RES\s*=\s*\((.*?)\)\s*:\s", out, re.S)
             lists = re.findall(r"\[(.*?)\]", re.sub(r"\s+", " ", m.group(1))) if m else []
-            if len(lists) != 4:
+            if len(lists) != 5:
                 c.obligation("coq-eval-parse:" + fname, False, out[-2000:])
                 return
-            a, b, cc, d = [ints(x) for x in lists]
-            bm += a; bo += b; be += cc; eb += d
+            a, b, cc, d, e5 = [ints(x) for x in lists]
+            bm += a; bo += b; be += cc; eb += d; bt += e5
         for i in bo:
             o = dcases[i]
             c.fail("oracle", "truncateText result contradicts the C15 specification",
@@ -169,6 +192,11 @@ def run(c):
             c.fail("oracle", "Report/Suggest text contradicts the C15 specification",
                    input={"text": o["text"], "TruncateLen": o["L"]}, observed={"msg": o["msg"], "sugg": o["sugg"]},
                    expected="message shows each text unchanged if it fits else shortened to TruncateLen; suggestion untruncated")
+        for i in bt:
+            o = tparsed[i][0]
+            c.fail("oracle", "a message with several variables does not shorten each of them as the C15 specification says",
+                   input={"args": o["text"], "TruncateLen": o["L"], "template": "A=$x;B=$y;C=$z;"}, observed={"msg": o["msg"]},
+                   expected="each variable unchanged if it fits else shortened to exactly TruncateLen bytes")
         for i in bm:
             if i in bo:
                 continue
